@@ -14,6 +14,10 @@
 //   reconnect d       (part "reconn" only) the Socket is close()d here and connect()ed again - the same client object over
 //                     several TCP loopback sessions, byte order set once before the first connect and by "order" items only;
 //                     d&1: the session that starts here is written by the client (0) or read by it (1)
+//   listen l m        (part "accept" only) the stream is an ACCEPTED asl Socket: an asl Socket binds 127.0.0.1:0, gets setEndian(l)
+//                     for l = 0..2 (l = 3: nothing), listens and accepts a connection made by the harness; m&1 = 0: the accepted
+//                     Socket is used as it comes (its own default order, NATIVE, whatever the listener has: the case then starts in
+//                     NATIVE order), m&1 = 1: it gets its own setEndian(init order); direction as given by init's second argument
 //   ra k              write AGAIN the same Array object that the (k mod n)-th of the n earlier "a" ops created (in the order
 //                     now in force); the source objects live for the whole case and are shared by the three sinks, and after
 //                     every << the source (Array / String / ByteArray / C string) must still equal the model
@@ -168,6 +172,7 @@ struct Plan {
 	std::vector<size_t> cuts;   // sorted distinct offsets in (0, all.size())
 	std::vector<size_t> sessStart; // part "reconn": item index at which a new connection starts (first session starts at 0)
 	std::vector<int> sessDir;      // direction of each session: 0 the client writes, 1 the client reads
+	int lorder = -1, accmode = 0;  // part "accept": order given to the listening Socket (3 none), accepted Socket 0 untouched / 1 own setEndian
 };
 
 static std::string drop_nul(const std::string& s)
@@ -183,6 +188,14 @@ static Plan decode(const vf::Case& c)
 {
 	Plan p;
 	int order = 1;
+	for (const vf::Op& o : c.ops)
+		if (o.name == "listen" && p.lorder < 0) {
+			p.lorder = (int)(((o.i(0) % 4) + 4) % 4);
+			p.accmode = (int)(o.i(1) & 1);
+		}
+	const bool untouched = p.lorder >= 0 && p.accmode == 0; // an accepted Socket nobody configured: the library's default order
+	if (untouched)
+		p.init = order = 2;
 	p.sessStart.push_back(0);
 	p.sessDir.push_back(0);
 	for (size_t i = 0; i < c.ops.size(); i++) {
@@ -191,7 +204,8 @@ static Plan decode(const vf::Case& c)
 		it.opno = (int)i;
 		if (o.name == "init") {
 			if (i == 0) {
-				p.init = order = (int)(((o.i(0) % 3) + 3) % 3);
+				if (!untouched)
+					p.init = order = (int)(((o.i(0) % 3) + 3) % 3);
 				p.sessDir[0] = (int)(o.i(1) & 1);
 			}
 			continue;
@@ -706,6 +720,65 @@ static void run_reconnect(const Plan& p, Sources& src)
 	}
 }
 
+// ---- an accepted asl Socket (part "accept"): its byte order is its own, not the listener's
+
+static void run_accept(const Plan& p, Sources& src)
+{
+	Socket lst;
+	if (p.lorder >= 0 && p.lorder < 3)
+		lst.setEndian((Endian)p.lorder);
+	VF_CHECK(lst.bind("127.0.0.1", 0), "harness: the asl listener cannot bind 127.0.0.1:0");
+	lst.listen(4);
+	int port = lst.localAddress().port();
+	VF_CHECK(port > 0, "harness: cannot read the listener's port back");
+	int peer = socket(AF_INET, SOCK_STREAM, 0);
+	try {
+		sockaddr_in a;
+		memset(&a, 0, sizeof a);
+		a.sin_family = AF_INET;
+		a.sin_addr.s_addr = htonl(INADDR_LOOPBACK);
+		a.sin_port = htons((uint16_t)port);
+		VF_CHECK(peer >= 0 && connect(peer, (sockaddr*)&a, sizeof a) == 0, "harness: connect to the asl listener failed, errno ", errno);
+		pollfd pf = {lst.handle(), POLLIN, 0};
+		VF_CHECK(poll(&pf, 1, 5000) > 0, "harness: no connection arrived at the asl listener");
+		Socket acc = lst.accept();
+		VF_CHECK(acc.handle() >= 0, "harness: accept() returned an invalid Socket");
+		if (p.accmode == 1)
+			acc.setEndian((Endian)p.init);
+		std::string who = std::string("accepted Socket (listener ") + (p.lorder >= 0 && p.lorder < 3 ? std::string("set to ") + ORDER_NAME[p.lorder] : std::string("left alone")) +
+		                  (p.accmode ? ", accepted Socket set to " + std::string(ORDER_NAME[p.init]) + ")" : ", accepted Socket left at its default order)");
+		if (p.sessDir[0] == 0) {
+			for (const Item& it : p.items) {
+				write_item(acc, it, src, "Socket");
+				std::string got = recv_n(peer, it.bytes.size());
+				VF_CHECK(got == it.bytes, who, ": ", describe(it), " sent ", got.size(), " bytes ", vf::hexs(got.substr(0, 64)), " want ", it.bytes.size(), " bytes ", vf::hexs(it.bytes.substr(0, 64)));
+			}
+			VF_CHECK(acc.error() == 0, who, ": error state ", acc.error(), " after writing");
+		}
+		else {
+			size_t off = 0;
+			while (off < p.all.size()) {
+				ssize_t n = ::send(peer, p.all.data() + off, p.all.size() - off, MSG_NOSIGNAL);
+				VF_CHECK(n > 0, "harness: send to the accepted socket failed, errno ", errno);
+				off += (size_t)n;
+			}
+			SockIn in(acc, -1);
+			in.prefed = true;
+			read_back(in, p, who.c_str());
+			VF_CHECK(acc.error() == 0, who, ": error state ", acc.error(), " after reading");
+		}
+		acc.close();
+		std::string extra = recv_n(peer, 0, true);
+		VF_CHECK(extra.empty(), who, ": ", extra.size(), " unexpected extra bytes ", vf::hexs(extra.substr(0, 32)));
+	}
+	catch (...) {
+		if (peer >= 0)
+			close(peer);
+		throw;
+	}
+	close(peer);
+}
+
 static int g_caseno = 0;
 
 void vf_run_case(const std::string& part, const vf::Case& c)
@@ -714,6 +787,12 @@ void vf_run_case(const std::string& part, const vf::Case& c)
 	Sources src(p);
 	if (part == "reconn") {
 		run_reconnect(p, src);
+		return;
+	}
+	if (part == "accept") {
+		if (p.lorder < 0)
+			p.lorder = 3;
+		run_accept(p, src);
 		return;
 	}
 	bool doBuf = part != "file" && part != "socket" && part != "frag", doFile = part != "buffer" && part != "socket" && part != "frag", doSock = part != "buffer" && part != "file";
@@ -962,6 +1041,38 @@ static Gen<vf::Case> casegen()
 	});
 }
 
+// an accepted asl Socket: listener configured (mostly with the swapping order) or not, accepted Socket mostly left alone
+static Gen<vf::Case> acceptgen()
+{
+	return gen::exec([]() {
+		vf::Case c;
+		c.ops.push_back(vf::Op("init", {*vf::irange<int>(0, 2), *vf::irange<int>(0, 1)}));
+		c.ops.push_back(vf::Op("listen", {*gen::elementOf(std::vector<int>{0, 0, 0, 1, 2, 3}), *gen::elementOf(std::vector<int>{0, 0, 0, 1})}));
+		int n = *vf::irange<int>(1, 6);
+		for (int i = 0; i < n; i++) {
+			int w = *vf::irange<int>(0, 19);
+			int t = *gen::elementOf(std::vector<int>{4, 5, 6, 7, 8, 9, 10, 11, 6, 8, 11, 3, 0});
+			if (w < 12)
+				c.ops.push_back(vf::Op("v", {t, *pattern(t)}));
+			else if (w < 17) {
+				vf::Op o("a", {t});
+				int len = *vf::irange<int>(0, 8);
+				for (int k = 0; k < len; k++)
+					o.a.push_back(*pattern(t));
+				c.ops.push_back(o);
+			}
+			else if (w < 18)
+				c.ops.push_back(vf::Op("order", {*vf::irange<int>(0, 2)}));
+			else {
+				vf::Op o("ls");
+				o.s = {std::string((size_t)*vf::irange<int>(1, 12), (char)('a' + i))};
+				c.ops.push_back(o);
+			}
+		}
+		return c;
+	});
+}
+
 // the same client Socket over 2..3 connections: byte order given once (mostly BIG, the swapping one), few order items
 static Gen<vf::Case> reconngen()
 {
@@ -1087,6 +1198,22 @@ static void classify(const vf::Case& c)
 	if (p.items.size() >= 40)
 		st.cls("case.ops>=40");
 	bool reconn = false;
+	if (p.lorder >= 0) {
+		// (only the part "accept" acts on it)
+		static const char* ln[] = {"BIG", "LITTLE", "NATIVE", "none"};
+		st.cls(std::string("accept.listener_") + ln[p.lorder] + (p.accmode ? ".accepted_own_setEndian" : ".accepted_untouched"));
+		bool data = false;
+		for (const Item& it : p.items) {
+			if (it.kind == 0)
+				break; // from here on the accepted Socket has an order of its own
+			if ((it.kind == 1 || it.kind == 2) ? TYPE_SIZE[it.t] > 1 && !it.x.empty() : it.kind == 5)
+				data = true;
+		}
+		if (p.lorder == 0 && p.accmode == 0 && data) {
+			reconn = true;
+			st.cls(p.sessDir[0] ? "accept.listener_BIG.untouched_accepted_reads_multibyte_data" : "accept.listener_BIG.untouched_accepted_writes_multibyte_data");
+		}
+	}
 	if (p.sessStart.size() > 1) {
 		// (only the part "reconn" acts on it) does a later session carry multi-byte data in the swapping order without an order item of its own?
 		for (size_t si = 1; si < p.sessStart.size(); si++) {
@@ -1197,4 +1324,6 @@ void vf_search(const vf::Args& a)
 	[&]() { vf::check_cases("frag", a.n(400, 6000), 40, fragcasegen(), classify); }();
 	// (4) the same client Socket over several TCP loopback connections
 	[&]() { vf::check_cases("reconn", a.n(80, 600), 40, reconngen(), classify); }();
+	// (5) an accepted asl Socket next to a configured listening Socket
+	[&]() { vf::check_cases("accept", a.n(80, 600), 40, acceptgen(), classify); }();
 }
